@@ -8,9 +8,10 @@ setup: proofs model ompl
 proofs:
 	cd $(COQ) && coq_makefile -f _CoqProject -o Makefile >/dev/null && timeout 3000 $(MAKE) -j16
 model: $(MODEL)/ompl_model
-$(MODEL)/ompl_model: $(COQ)/Extract.v $(wildcard $(COQ)/*Model.v) $(wildcard extract/*.ml)
+MODELS := $(shell grep 'Model\.v$$' $(COQ)/_CoqProject)
+$(MODEL)/ompl_model: $(COQ)/Extract.v $(addprefix $(COQ)/,$(MODELS)) $(wildcard extract/*.ml)
 	mkdir -p $(MODEL)
-	cd $(COQ) && ( test -f Makefile || coq_makefile -f _CoqProject -o Makefile >/dev/null ) && timeout 3000 $(MAKE) -j16 $$(ls *Model.v | sed 's/\.v$$/.vo/')
+	cd $(COQ) && ( test -f Makefile || coq_makefile -f _CoqProject -o Makefile >/dev/null ) && timeout 3000 $(MAKE) -j16 $(MODELS:.v=.vo)
 	cd $(MODEL) && coqc -Q $(CURDIR)/$(COQ) OmplV -o $(CURDIR)/$(MODEL)/Extract.vo $(CURDIR)/$(COQ)/Extract.v >/dev/null
 	cp extract/*.ml $(MODEL)/
 	cd $(MODEL) && ocamlfind ocamlopt -w -a -O2 model.mli model.ml $(addsuffix .ml,$(DRIVERS)) main.ml -o ompl_model.new 2>/dev/null || \
